@@ -423,30 +423,51 @@ def run(ix, R):
         from sa.pattern import find as _find
         stmt4 = 'the native grid is the largest wavenumber grid among the active molecules (independent of the requested grid)'
         head = ['V_ag = self.chemistry.activeGases', 'V_grids = [V_c[V_g].wavenumberGrid for V_g in V_ag]']
-        alt = None
-        for sel in ('return max(V_grids, key=lambda V_x: V_x.shape[0])', 'return max(V_grids, key=lambda V_x: len(V_x))',
-                    'return max(V_grids, key=len)'):
-            alt = alt or _find(f.node, head + [sel])[0]
-        small = None
-        for sel in ('return min(V_grids, key=lambda V_x: V_x.shape[0])', 'return min(V_grids, key=len)'):
-            small = small or _find(f.node, head + [sel])[0]
-        for cmp_ in ('V_wn.shape[0] < V_cur.shape[0]', 'V_cur.shape[0] > V_wn.shape[0]', 'len(V_wn) < len(V_cur)',
-                     'len(V_cur) > len(V_wn)'):
-            small = small or _find(f.node, head + ['''
+        LARGE_RET = ('return max(V_grids, key=lambda V_x: V_x.shape[0])', 'return max(V_grids, key=lambda V_x: len(V_x))',
+                     'return max(V_grids, key=len)')
+        SMALL_RET = ('return min(V_grids, key=lambda V_x: V_x.shape[0])', 'return min(V_grids, key=len)')
+        SMALL_CMP = ('V_wn.shape[0] < V_cur.shape[0]', 'V_cur.shape[0] > V_wn.shape[0]', 'len(V_wn) < len(V_cur)',
+                     'len(V_cur) > len(V_wn)')
+        LARGE_CMP = ('V_cur.shape[0] < V_wn.shape[0]', 'V_wn.shape[0] > V_cur.shape[0]', 'len(V_cur) < len(V_wn)',
+                     'len(V_wn) > len(V_cur)')
+        LOOP = '''
 for V_wn in V_grids:
     ...
     if %s:
         V_cur = V_wn
-''' % cmp_, 'return V_cur'])[0]
-        # the two tests of the selection loop merged into one (`is None or shorter`), either way round
-        for cmp_ in ('V_cur.shape[0] < V_wn.shape[0]', 'V_wn.shape[0] > V_cur.shape[0]', 'len(V_cur) < len(V_wn)',
-                     'len(V_wn) > len(V_cur)'):
-            alt = alt or _find(f.node, head + ['''
-for V_wn in V_grids:
-    ...
-    if V_cur is None or %s:
-        V_cur = V_wn
-''' % cmp_, 'return V_cur'])[0]
+'''
+
+        def selection(node, pre, binding=None):
+            """'large' / 'small' / None: the selection statements found under `node` after the statements `pre`"""
+            lg = sm = None
+            for sel in LARGE_RET:
+                lg = lg or _find(node, pre + [sel], binding)[0]
+            for sel in SMALL_RET:
+                sm = sm or _find(node, pre + [sel], binding)[0]
+            for cmp_ in SMALL_CMP:
+                sm = sm or _find(node, pre + [LOOP % cmp_, 'return V_cur'], binding)[0]
+            for cmp_ in LARGE_CMP:
+                # (the two tests of the selection loop may be merged into one: `is None or shorter`)
+                lg = lg or _find(node, pre + [LOOP % ('V_cur is None or ' + cmp_), 'return V_cur'], binding)[0]
+                lg = lg or _find(node, pre + [LOOP % cmp_, 'return V_cur'], binding)[0]
+            return 'small' if sm is not None else ('large' if lg is not None else None)
+        kind = selection(f.node, head)
+        if kind is None:
+            # the selection moved into a helper that is new to the reviewed tree and is handed the list of grids
+            from sa.helpers import new_helpers_of
+            for g_ in new_helpers_of(f):
+                ps_ = [p_ for p_ in g_.params() if p_ not in ('self', 'cls')]
+                if len(ps_) != 1:
+                    continue
+                k_ = selection(g_.node, [], {'V_grids': ps_[0]})
+                if k_ is None:
+                    continue
+                for callee in ('self.%s' % g_.name, g_.name, '%s.%s' % (g_.cls.name, g_.name) if g_.cls is not None else g_.name):
+                    for tail in (['return %s(V_grids)' % callee], ['V_cur = %s(V_grids)' % callee, 'return V_cur']):
+                        if _find(f.node, head + tail)[0] is not None:
+                            kind = k_
+        small = True if kind == 'small' else None
+        alt = True if kind == 'large' else None
         if small is not None:
             R.fail('4.native', 'DOM', site, stmt4, 'the smallest grid is selected', 'min(..., key=size) picks the grid with '
                    'the fewest points: molecules with finer grids are then interpolated down', f.loc())
